@@ -8,7 +8,7 @@ Require Import ExtrOcamlBasic.
 Extraction Language OCaml.
 Extraction "model.ml"
   analyze gen gen_with default_limits sort_items state_lines is_conflict_line item_idx
-  run trace is_nonverbose sp0
+  run is_nonverbose sp0
   analyze_size build_expr create_lexer dfa_match dfa_match_oob expr_match
   lex_at regex_lexer parse_pattern parse_pattern_with regex_grammar_table regex_raw_grammar string_view_to_subset regex_term_f regex_rule_f
   bucket closure_children nterm_empty nterm_first.
